@@ -861,3 +861,109 @@ func checkDecoderChains(unitFuncs []*CFunc, report func(f *CFunc, line int, ok b
 	}
 	return n
 }
+
+// ---------- R12.6: surrogate tests on code points ----------
+// A test of the form (x & M) == 0xD800 classifies x as a surrogate. On a 32-bit code point M must keep every bit above the
+// surrogate block (0xFFFFF800); the 16-bit mask 0xF800 also matches U+1D800, U+2D800, … - valid characters of planes 1-16.
+// Range tests (0xD800 <= x && x <= 0xDFFF) are checked for their two bounds.
+func checkSurrogateTests(fs []*CFunc, report func(f *CFunc, line int, ok bool, msg string)) int {
+	n := 0
+	for _, f := range fs {
+		f.Body.walk(func(m *CNode) bool {
+			if m.Kind != "BinaryOperator" || (m.Opcode != "==" && m.Opcode != "!=") || len(m.Inner) != 2 {
+				return true
+			}
+			for k := 0; k < 2; k++ {
+				cst, other := m.Inner[k], cstrip(m.Inner[1-k])
+				v, ok := cIntValue(cst)
+				if !ok || v != 0xD800 || other == nil || other.Kind != "BinaryOperator" || other.Opcode != "&" || len(other.Inner) != 2 {
+					continue
+				}
+				mask, okm := cIntValue(other.Inner[1])
+				operand := other.Inner[0]
+				if !okm {
+					mask, okm = cIntValue(other.Inner[0])
+					operand = other.Inner[1]
+				}
+				if !okm {
+					continue
+				}
+				n++
+				// width of the tested value: look through integer promotions to the declared type
+				op := cstrip(operand)
+				qt := op.QT()
+				wide := !(strings.Contains(qt, "16") || strings.Contains(qt, "short") || qt == "char" || strings.Contains(qt, "char16"))
+				m32 := uint32(mask)
+				switch {
+				case wide && m32 == 0xFFFFF800:
+					report(f, m.line, true, "surrogate test keeps every bit above the surrogate block")
+				case !wide && m32&0xFFFF == 0xF800:
+					report(f, m.line, true, "surrogate test on a 16-bit unit")
+				default:
+					report(f, m.line, false, fmt.Sprintf("the surrogate test (%s & 0x%X) == 0xD800 on a value of type %s ignores the bits above bit 15: it also matches U+1D800…U+1DFFF, U+2D800… - %d valid characters of planes 1 to 16 are treated as invalid (dropped by every operation that encodes a character)", op.text(), m32, qt, 16*2048))
+				}
+			}
+			return true
+		})
+	}
+	return n
+}
+
+// ---------- R12.7: encoders bound the code point before handing it to the C library ----------
+// c32rtomb (glibc, UTF-8 locale) still produces the obsolete 5 and 6 byte forms for values above U+10FFFF. A runtime function
+// that calls it with a caller-supplied buffer documented as "at least 5 chars" must reject such values first.
+func checkEncoderRange(P *CProgram, r *Rule) {
+	var names []string
+	for n := range P.Funcs {
+		names = append(names, n)
+	}
+	sort.Strings(names)
+	for _, name := range names {
+		f := P.Funcs[name]
+		if !strings.HasPrefix(f.Unit, "lib/runtime/") {
+			continue
+		}
+		for _, call := range callsIn2(f.Body, "c32rtomb") {
+			a := call.args()
+			if len(a) < 2 {
+				continue
+			}
+			cp := cstrip(a[1]).text()
+			guarded := false
+			f.Body.walk(func(m *CNode) bool {
+				if m.Kind != "IfStmt" || len(m.Inner) < 2 || m.line > call.line {
+					return true
+				}
+				// a comparison of the code point with 0x10FFFF whose branch returns
+				cmp := false
+				m.Inner[0].walk(func(x *CNode) bool {
+					if x.Kind == "BinaryOperator" && (x.Opcode == ">" || x.Opcode == ">=" || x.Opcode == "<" || x.Opcode == "<=") && len(x.Inner) == 2 {
+						l, rr := cstrip(x.Inner[0]), cstrip(x.Inner[1])
+						lv, lok := cIntValue(x.Inner[0])
+						rv, rok := cIntValue(x.Inner[1])
+						if (rok && (rv == 0x10FFFF || rv == 0x110000) && l != nil && l.text() == cp) || (lok && (lv == 0x10FFFF || lv == 0x110000) && rr != nil && rr.text() == cp) {
+							cmp = true
+						}
+					}
+					return true
+				})
+				if !cmp {
+					return true
+				}
+				m.Inner[1].walk(func(x *CNode) bool {
+					if x.Kind == "ReturnStmt" {
+						guarded = true
+					}
+					return true
+				})
+				return true
+			})
+			pos := fmt.Sprintf("%s:%d", f.Unit, call.line)
+			if guarded {
+				r.AddAt(OK, "C "+f.Name+"|code point bounded before c32rtomb", pos, "values above U+10FFFF are rejected before the conversion")
+			} else {
+				r.AddAt(Bad, "C "+f.Name+"|code point bounded before c32rtomb", pos, "the code point is handed to c32rtomb without an upper bound: for values above U+10FFFF the C library writes 5 or 6 bytes (plus the terminator) into buffers the callers size for 4 - a write outside the block, and a 'character' that is not a Unicode scalar value")
+			}
+		}
+	}
+}
